@@ -107,6 +107,9 @@ class Program(object):
         for index, statement in enumerate(self.statements):
             self.save_symbol(index, statement)
 
+        _verif.emit("Collected", n=len(self.statements), mnemonics=[s.mnemonic for s in self.statements],
+                    symbols=[[k, "addr" if v.is_address() else "value", v.int] for k, v in self.symbol_table.items()])
+
         for index, statement in enumerate(self.statements):
             statement.resolve_symbols(self.symbol_table)
 
@@ -134,13 +137,21 @@ class Program(object):
             address = statement.set_address(address)
             address += statement.code_pkg.size
 
+        _verif.emit("Laid", addrs=[s.code_pkg.address.int for s in self.statements], sizes=[s.code_pkg.size for s in self.statements])
+
         for index, statement in enumerate(self.statements):
             statement.fix_addresses(self.statements, index)
+
+        _verif.emit("Fixed", sizes=[s.code_pkg.size for s in self.statements],
+                    lens=[s.code_pkg.op_code.byte_len() + s.code_pkg.post_byte.byte_len() + s.code_pkg.additional.byte_len()
+                          for s in self.statements])
 
         # Update the symbol table with the proper addresses
         for symbol, value in self.symbol_table.items():
             if value.is_address():
                 self.symbol_table[symbol] = self.statements[value.int].code_pkg.address
+
+        _verif.emit("Backpatched", symbols=[[k, v.int] for k, v in self.symbol_table.items()])
 
         # Find the origin and name of the project
         for statement in self.statements:
